@@ -154,6 +154,12 @@ type ExploreConfig struct {
 	LenCap    int
 	// Summaries: function name (package under test) -> contract name
 	Summaries map[string]string
+	// UnwindOK: the harness states the unwind bound as part of its claim;
+	// paths cut at the bound are counted, not reported as a reduced bound.
+	UnwindOK bool
+	// SigLabels: symbols (by harness label) whose model value is part of a
+	// violation's identity (e.g. the program/template index)
+	SigLabels []string
 }
 
 // pathCtx is the per-path symbolic state.
@@ -182,6 +188,7 @@ type pathCtx struct {
 	drawLog                                              []drawRec
 	incTags                                              []string
 	curLabel                                             string
+	mapOrder                                             int
 	obs                                                  []obsRec
 	panicWhere                                           string
 	panicStack                                           []string
@@ -722,6 +729,16 @@ func (ex *Explorer) done(res *PathResult, px *pathCtx) {
 			}
 		}
 		sig := v.Kind + "|" + v.Tag + "|" + v.Where + "|" + v.Msg
+		if len(v.Stack) > 1 {
+			sig += "|" + v.Stack[1]
+		}
+		for _, lab := range ex.Cfg.SigLabels {
+			for _, sy := range v.Syms {
+				if sy.Label == lab {
+					sig += fmt.Sprintf("|%s=%d", lab, v.Model[sy.Name])
+				}
+			}
+		}
 		if ex.violSeen[sig] {
 			continue
 		}
